@@ -274,7 +274,7 @@ Proof.
     { apply aget_none. intros k Hin. pose proof (s_dom s a HS _ _ Hin). lia. }
     rewrite Hnone. eexists. split; [reflexivity|].
     destruct HS as [H1 H2 H3 H4 H5 H6 H7 H8].
-    assert (Hn : nret (with_calls s (calls s ++ [mkcall ow (now s) (now s + d) Init (now s) (now s) false false None 0])) = nret s).
+    assert (Hn : nret (with_calls s (calls s ++ [mkcall ow (now s) (now s + d) Init (now s) (now s) false false None 0 0 0])) = nret s).
     { unfold nret, with_calls; cbn [calls]. rewrite cnt_app. cbn. lia. }
     split; cbn [acs started returned recvd sends errored]; unfold with_calls; cbn [calls wire sent]; auto.
     + apply aset_keys. exact H1.
@@ -282,10 +282,10 @@ Proof.
     + apply all_app.
       * intros j kj Hj. specialize (H3 j kj Hj). unfold call_sim in *.
         assert (j < length (calls s))%nat by (apply nth_error_Some; congruence).
-        rewrite aget_aset_neq by lia. fold (with_calls s (calls s ++ [mkcall ow (now s) (now s + d) Init (now s) (now s) false false None 0])). rewrite Hn. exact H3.
+        rewrite aget_aset_neq by lia. fold (with_calls s (calls s ++ [mkcall ow (now s) (now s + d) Init (now s) (now s) false false None 0 0 0])). rewrite Hn. exact H3.
       * unfold call_sim. rewrite aget_aset_eq. cbn. repeat split; auto. intros; discriminate.
     + rewrite app_length. cbn [length]. lia.
-    + fold (with_calls s (calls s ++ [mkcall ow (now s) (now s + d) Init (now s) (now s) false false None 0])). rewrite Hn. exact H5.
+    + fold (with_calls s (calls s ++ [mkcall ow (now s) (now s + d) Init (now s) (now s) false false None 0 0 0])). rewrite Hn. exact H5.
     + intros id Hin. destruct (H8 id Hin) as [j [kj [Hj Hrest]]]. exists j, kj. split; [|exact Hrest].
       rewrite nth_error_app1; [exact Hj|apply nth_error_Some; congruence].
   - (* LPre *) inv_step H. exists a. split; [reflexivity|].
